@@ -107,6 +107,15 @@ def run(rep, tier, rng):
                          "python": algs.PRELUDE + f"A = {algs.alg_py(al)}\nv = np.array({v}, float)\nM = A.get_binding_matrix(v, {swap})\n"
                          f"x = np.arange(1.0, {len(v)} + 1)\nassert np.allclose(M @ x, A.bind(v, x) if {swap} else A.bind(x, v))\n"},
                         ("bmat-positional", al, tuple(v), swap), nontrivial=any(v))
+                if kind == "random":
+                    # truthy / falsy flags that are not the Python bool singletons (NumPy booleans, 0 / 1)
+                    for form, fv_ in (("np.bool_", np.bool_(swap)), ("int", int(swap))):
+                        of_ = c.observe(lambda: A.get_binding_matrix(algs.fl(v), swap_inputs=fv_))
+                        add(f"check_bmat {al} {c.zlist(v)} {c.b(swap)} {algs.tol_for(v, d=1)} {obs_t(of_, algs.enc_mat)}",
+                            {"op": "bmat", "alg": al, "v": v, "swap": swap, "kind": "flag-as-" + form, "obs": c.obs_json(of_),
+                             "python": algs.PRELUDE + f"A = {algs.alg_py(al)}\nv = np.array({v}, float)\nM = A.get_binding_matrix(v, swap_inputs={'np.bool_' if form == 'np.bool_' else 'int'}({swap}))\n"
+                             f"x = np.arange(1.0, {len(v)} + 1)\nassert np.allclose(M @ x, A.bind(v, x) if {swap} else A.bind(x, v))\n"},
+                            ("bmat-flag-form", form, al, tuple(v), swap), nontrivial=any(v))
                 o = c.observe(lambda: A.get_binding_matrix(algs.fl(v), swap_inputs=swap))
                 add(f"check_bmat {al} {c.zlist(v)} {c.b(swap)} {algs.tol_for(v, d=1)} {obs_t(o, algs.enc_mat)}",
                     {"op": "bmat", "alg": al, "v": v, "swap": swap, "kind": kind, "obs": c.obs_json(o)},
